@@ -362,17 +362,27 @@ ASTNode *PrimaryExpressionParser::parsePrimary() {
             int depth = 1;
             bool is_function_call = false;
             while (depth > 0 && !parser_->isAtEnd()) {
-                // 型引数リストに現れ得ないトークンに達したら、'<' は比較演算子
-                if (parser_->check(TokenType::TOK_SEMICOLON) ||
-                    parser_->check(TokenType::TOK_LBRACE) ||
-                    parser_->check(TokenType::TOK_RBRACE) ||
-                    parser_->check(TokenType::TOK_LPAREN) ||
-                    parser_->check(TokenType::TOK_RPAREN) ||
-                    parser_->check(TokenType::TOK_AND) ||
-                    parser_->check(TokenType::TOK_OR) ||
-                    parser_->check(TokenType::TOK_QUESTION) ||
-                    parser_->check(TokenType::TOK_ASSIGN) ||
-                    parser_->check(TokenType::TOK_NUMBER)) {
+                // Only tokens that the type-argument parser below accepts may
+                // appear between '<' and the matching '>': anything else
+                // (a member access, an operator, a literal, a parenthesis ...)
+                // means that '<' is the comparison operator.
+                if (!(parser_->check(TokenType::TOK_IDENTIFIER) ||
+                      parser_->check(TokenType::TOK_LT) ||
+                      parser_->check(TokenType::TOK_GT) ||
+                      parser_->check(TokenType::TOK_COMMA) ||
+                      parser_->check(TokenType::TOK_MUL) ||
+                      parser_->check(TokenType::TOK_LBRACKET) ||
+                      parser_->check(TokenType::TOK_RBRACKET) ||
+                      parser_->check(TokenType::TOK_INT) ||
+                      parser_->check(TokenType::TOK_LONG) ||
+                      parser_->check(TokenType::TOK_SHORT) ||
+                      parser_->check(TokenType::TOK_TINY) ||
+                      parser_->check(TokenType::TOK_FLOAT) ||
+                      parser_->check(TokenType::TOK_DOUBLE) ||
+                      parser_->check(TokenType::TOK_BOOL) ||
+                      parser_->check(TokenType::TOK_STRING_TYPE) ||
+                      parser_->check(TokenType::TOK_CHAR_TYPE) ||
+                      parser_->check(TokenType::TOK_VOID))) {
                     break;
                 }
                 if (parser_->check(TokenType::TOK_LT)) {
